@@ -26,6 +26,8 @@ Driver for C19.  Strings travel as code points joined by `.` (`_` = empty string
       -> xml=<ok:str|ERR:forbidden|ERR:FODC0006> frag=<..> mustReject=<0|1>
   XMLT defuse=<0|1|D> declok=<0|1> text=<str>            (the gate on the characters: XmlText.scanProlog)
       -> xml=<..> frag=<..> forbidden=<0|1> parsed=<0|1>
+  USER init=<str> avail=<str;..> eff=<str> raises=<0|1 per comparison, e.g. 001>   (phase 5b: _locale_call with a raising primitive)
+      -> model=<ok|ERR:ValueError|ERR:localeError|HANG>#<lock>#<lc> nofinally=<..>#<lock>#<lc> spec=<lock>#<lc>
   XMLD defuse=<0|1|D> text=<str>     (phase 5: the XML declaration parsed exactly, XmlDecl.scanPrologX)
       -> decl=<-|bad|V:ver,E:enc|-,S:y|n|-> gram=<0|1> expat=<0|1> rt=<0|1: spec render of the tree = body>
          cls=<ok|wrong|multibyte|unknown|-> rawenc=<0|1: unusable declared encoding (F19e, fixed)> standalone=<0|1> xml=<..>
@@ -33,6 +35,7 @@ Driver for C19.  Strings travel as code points joined by `.` (`_` = empty string
 import EPV.Proto
 import EPV.Spec.GlobalsSpec
 import EPV.Spec.GlobalsXmlDeclSpec
+import EPV.Model.GlobalsCollRaise
 import EPV.Gen.C19Defaults
 open EPV.Proto EPV.Globals
 
@@ -264,6 +267,29 @@ def answerXmlD (fs : List (String × String)) : String :=
       | none => "-"
     s!"decl={decl} gram={b01 gram} expat={b01 ex} rt={b01 rt} cls={cls} rawenc={b01 (XmlDecl.rawEncoding cs)} standalone={b01 pt.1.standalone} xml={showX (XmlDecl.parseXmlTextX df t)}"
 
+def showRes (r : Res Unit) : String :=
+  let k := match r with
+    | .ok _ _ => "ok"
+    | .err .valueError _ => "ERR:ValueError"
+    | .err .localeError _ => "ERR:localeError"
+    | .err _ _ => "ERR:other"
+    | .stuck _ => "HANG"
+  let σ := CollRaise.final r
+  s!"{k}#{b01 σ.lock}#{encStr σ.lc}"
+
+def answerUseR (fs : List (String × String)) : String :=
+  match ((field fs "avail").splitOn ";" |>.filter (· ≠ "")).mapM decStr, decStr (field fs "init"), decStr (field fs "eff") with
+  | some av, some init, some eff =>
+    let w : World := ⟨fun n => av.contains n, fun _ => eff⟩
+    let σ0 : State := ⟨false, init, [], "", []⟩
+    let rs := (field fs "raises").toList.map (· == '1')
+    let nofin := match rs with
+      | [r] => showRes (CollRaise.useLocNoFinally w eff r σ0)
+      | _ => "-"
+    let sp := EPV.GlobalsSpec.specObs σ0
+    s!"model={showRes (CollRaise.useMany w eff rs σ0)} nofinally={nofin} spec={b01 sp.lock}#{encStr sp.lc}"
+  | _, _, _ => "bad-args"
+
 def answer (line : String) : String :=
   let l := line.trimAscii.toString
   let (cmd, rest) := match l.splitOn " " with
@@ -289,6 +315,7 @@ def answer (line : String) : String :=
   | "ENV" => answerEnv fs
   | "XML" => answerXml fs
   | "XMLD" => answerXmlD fs
+  | "USER" => answerUseR fs
   | "XMLT" =>
     match decStr (field fs "text") with
     | none => "bad-text"
